@@ -35,7 +35,14 @@ pub fn analyze_order(egraph: &EGraph, enode: &Expr) -> OrderKey {
         Order([keys, _]) | TopN([_, _, keys, _]) => x(keys).clone(),
         // plans that preserve order
         Proj([_, c]) | Filter([_, c]) | Window([_, c]) | Limit([_, _, c]) => x(c).clone(),
-        MergeJoin([_, _, _, _, _, r]) => x(r).clone(),
+        // a merge join emits its matches in key order, but a NULL-padded row has no key on the
+        // padded side: the output is ordered by the keys of a side only if no row of that side
+        // can be padding
+        MergeJoin([t, _, _, _, l, r]) => match egraph[*t].nodes[0] {
+            Inner | RightOuter => x(r).clone(),
+            LeftOuter => x(l).clone(),
+            _ => Box::new([]),
+        },
         SortAgg([_, _, c]) => x(c).clone(),
         // unordered for other plans
         _ => Box::new([]),
